@@ -133,7 +133,7 @@ def cmd_check(sid, tier, props):
         if p.returncode != 0:
             print("patch failed", p.stdout)
             return
-        excl = "" if os.environ.get("SEED_WITH_C17") else "--exclude 'c17*.go'"
+        excl = ""
         sh(f"rsync -a {excl} /verif/harness /verif/harness-intertx {scratch}/")
         for h in ("harness", "harness-intertx"):
             mod = open(f"{scratch}/{h}/go.mod").read().replace("=> /repo/", f"=> {scratch}/repo/")
